@@ -14,6 +14,7 @@ import lena.core
 import lena.flow
 from lena.core import Sequence, Source, Split
 from lena.flow import Cache, Filter
+from lena.meta.elements import SetContext
 
 PROPERTY = "C18"
 LEVEL = "exploration"
@@ -56,6 +57,19 @@ def _tag(name):
     return f
 
 
+def _mut(name):
+    """changes the context of the value in place (and hands on the same objects)"""
+    def f(v):
+        d, c = _split(v)
+        if c is None:
+            return d + (name,)
+        c[name] = c.get(name, 0) + 1
+        c.setdefault("hist", []).append(name)
+        return v
+    f.__name__ = "mut_" + name
+    return f
+
+
 PREDS = {
     "even": lambda v: _split(v)[0][1] % 2 == 0,
     "not3": lambda v: _split(v)[0][1] % 3 != 0,
@@ -73,6 +87,8 @@ class Stage(object):
         self.fail_at = None
         if recipe[0] == "map":
             self.f = _tag(recipe[1])
+        elif recipe[0] == "mut":
+            self.f = _mut(recipe[1])
         else:
             self.f = PREDS[recipe[1]]
 
@@ -187,6 +203,8 @@ def _model_chain(stages, world, recompute, flow, fault):
     for idx, r in enumerate(stages):
         if r[0] == "map":
             flow = mapgen(_tag(r[1]), flow, idx)
+        elif r[0] == "mut":
+            flow = mapgen(_mut(r[1]), flow, idx)
         elif r[0] == "filter":
             flow = filtgen(PREDS[r[1]], flow, idx)
         else:
@@ -232,17 +250,20 @@ def simulate(stages, world, op, values, mode=None, recompute=None):
     stop = op["stop"]
     if stop[0] == "kill":
         stop = ["take", stop[1]]
+    # (stages may change values in place: every use gets its own copies)
+    pristine = copy.deepcopy(values)
+    fresh = lambda: copy.deepcopy(pristine)
     if driver == "split1":
         # Split materialises the (single) block before the branch runs
         try:
-            buf = list(_src_gen(values, fault, mode))
+            buf = list(_src_gen(fresh(), fault, mode))
         except Boom:
             return [], False, "Boom", set(), [dict(world)], -1
-        base = lambda: iter(list(buf))
+        base = lambda: iter(list(_src_gen(fresh(), None, mode)))
         flow, mc = _model_chain(stages, world, recompute, iter(buf), fault)
     else:
-        base = lambda: _src_gen(values, None, mode)
-        flow, mc = _model_chain(stages, world, recompute, _src_gen(values, fault, mode), fault)
+        base = lambda: _src_gen(fresh(), None, mode)
+        flow, mc = _model_chain(stages, world, recompute, _src_gen(fresh(), fault, mode), fault)
     out, completed, exc = _consume(flow, stop)
     if hasattr(flow, "close"):
         flow.close()
@@ -291,10 +312,10 @@ class Real(object):
     """the pipeline elements of one program; rebuilt for every run unless the
     history re-uses its objects (one process running the same sequence again)"""
 
-    def __init__(self, stages, recompute):
+    def __init__(self, stages, recompute, templated=False):
         self.els, self.stage_objs, self.caches = [], {}, {}
         for idx, r in enumerate(stages):
-            if r[0] == "map":
+            if r[0] in ("map", "mut"):
                 s = Stage(r)
                 self.stage_objs[idx] = s
                 self.els.append(s)
@@ -303,7 +324,12 @@ class Real(object):
                 self.stage_objs[idx] = s
                 self.els.append(Filter(s))
             else:
-                c = Cache("cache_%s.pkl" % r[1], recompute=recompute.get(r[1], False))
+                if templated:
+                    # all caches are built from one template and named by the static context
+                    self.els.append(SetContext("stage", r[1]))
+                    c = Cache("cache_{{stage}}.pkl", recompute=recompute.get(r[1], False))
+                else:
+                    c = Cache("cache_%s.pkl" % r[1], recompute=recompute.get(r[1], False))
                 self.caches[r[1]] = c
                 self.els.append(c)
         self.seq = None
@@ -311,11 +337,11 @@ class Real(object):
         self.cur_src = None
 
 
-def run_real(stages, op, values, mode=None, real=None):
+def run_real(stages, op, values, mode=None, real=None, templated=False):
     fault = op.get("fault")
     reuse = real is not None
     if real is None:
-        real = Real(stages, op.get("recompute", {}))
+        real = Real(stages, op.get("recompute", {}), templated)
     els, stage_objs = real.els, real.stage_objs
     before = dict((idx, s.calls) for idx, s in stage_objs.items())
     for s in stage_objs.values():
@@ -403,7 +429,8 @@ def judge_history(case):
     reuse = bool(case.get("reuse"))
     fixed_recompute = case.get("recompute0", {}) if reuse else None
     with instr.Sandbox("lena-c18-"):
-        real = Real(stages, fixed_recompute) if reuse else None
+        templated = bool(case.get("templated"))
+        real = Real(stages, fixed_recompute, templated) if reuse else None
         for step, op in enumerate(case["ops"]):
             version = step + 1
             if op["op"] == "drop":
@@ -426,7 +453,7 @@ def judge_history(case):
                 op["driver"] = "source" if case.get("reuse_driver") == "source" else "seq"
             # (the upstream may deliver a different number of values in every run)
             values = upstream_values(op.get("n", n), version, with_ctx)
-            out, completed, exc, pulls, calls, how = run_real(stages, op, values, mode, real if reused else None)
+            out, completed, exc, pulls, calls, how = run_real(stages, op, copy.deepcopy(values), mode, real if reused else None, templated)
             killed = op["stop"][0] == "kill"
             matched = []
             sims = []
@@ -491,6 +518,7 @@ def judge_history(case):
 
 plain_stage = st.one_of(
     st.builds(lambda nm: ["map", nm], st.sampled_from(["a", "b", "c"])),
+    st.builds(lambda nm: ["mut", nm], st.sampled_from(["m", "k"])),
     st.builds(lambda p: ["filter", p], st.sampled_from(["even", "not3", "all", "none", "even"])),
 )
 
@@ -511,6 +539,8 @@ def history_case(draw, big=False):
     names = ["A", "B"] if two else ["A"]
     fallible = [-1] + [i for i, r in enumerate(stages) if r[0] != "cache"]
     case = {"stages": stages, "n": n, "ctx": draw(st.sampled_from([False, True, True, "shared", "big"]))}
+    if draw(st.integers(0, 3)) == 0:
+        case["templated"] = True
     if draw(st.integers(0, 3)) == 0:
         case["reuse"] = True
         case["reuse_driver"] = draw(st.sampled_from(["seq", "source"]))
@@ -558,6 +588,7 @@ def crash_point_cases(tier):
         [["map", "a"], ["cache", "A"], ["map", "b"]],
         [["filter", "even"], ["cache", "A"], ["filter", "not3"]],
         [["map", "a"], ["cache", "A"], ["map", "b"], ["cache", "B"], ["map", "c"]],
+        [["mut", "m"], ["cache", "A"], ["mut", "k"]],
     ]
     ns = range(0, 6) if tier == "quick" else range(0, 9)
     for stages in pipelines:
